@@ -562,6 +562,301 @@ def oracle(ctx, case, impl, tvals, hit, distinct_ts):
 
 
 # ---------------------------------------------------------------------------------------------
+# CovarianceInterpolator: the plumbing (model AF.InterpCov, request kind "cov"). The numeric kernels
+# (numpy.cov per sample, scipy.linalg.inv, the nested-sampling fit of the relationships) are data: the
+# fit is replaced by a harness-side fake search that returns relationships chosen by the generator.
+
+COV_SHAPES = {
+    "gaussian": [("g", "centre"), ("g", "normalization"), ("g", "sigma")],
+    "flat2": [("v",), ("x",)],
+    "flat1": [("v",)],
+    "nested": [("g", "centre"), ("g", "normalization"), ("g", "sigma"), ("inner", "u", "a")],
+}
+
+
+def _cov_model(shape, tv):
+    import vlib
+
+    def gp():
+        return af.GaussianPrior(mean=1.0, sigma=1.0)
+
+    if shape == "gaussian":
+        return af.Collection(t=tv, g=af.Model(Gaussian, centre=gp(), normalization=gp(), sigma=gp()))
+    if shape == "flat2":
+        return af.Collection(t=tv, v=gp(), x=gp())
+    if shape == "flat1":
+        return af.Collection(t=tv, v=gp())
+    return af.Collection(t=tv, g=af.Model(Gaussian, centre=gp(), normalization=gp(), sigma=gp()),
+                         inner=af.Collection(u=af.Model(vlib.P1, a=gp())))
+
+
+def cov_build(case):
+    """-> list of SamplesPDF (fresh objects) for a generated case"""
+    paths = COV_SHAPES[case["shape"]]
+    out = []
+    for smp in case["samples"]:
+        model = _cov_model(case["shape"], float(smp["t"]))
+        sl = [af.Sample(log_likelihood=float(ll), log_prior=1.0, weight=1.0,
+                        kwargs={tuple(p): float(x) for p, x in zip(paths, row)})
+              for ll, row in zip(smp["logl"], smp["rows"])]
+        out.append(af.SamplesPDF(model=model, sample_list=sl))
+    return out
+
+
+class _FakeSearch:
+    """stands in for DynestyStatic inside autofit.interpolator.covariance: `fit` answers the relationships
+    the generator chose (one per component of the relationship model, in order) and records what it was given"""
+    rels = []
+    seen = []
+
+    def __init__(self, *a, **k):
+        pass
+
+    def fit(self, model, analysis, **kw):
+        import autofit.interpolator.covariance as cv
+
+        _FakeSearch.seen.append((model, analysis))
+
+        class R:
+            instance = [cv.LinearRelationship(m, c) for m, c in _FakeSearch.rels[: len(model)]]
+
+        return R()
+
+
+def cov_real(case, samples=None):
+    """the real CovarianceInterpolator on the case -> dict of observables"""
+    import autofit.interpolator.covariance as cv
+
+    samples = samples if samples is not None else cov_build(case)
+    ci = cv.CovarianceInterpolator(samples)
+    tp = case["tp"]
+    eq = functools.reduce(getattr, tp, ci) == case["v"]
+    an = ci._analysis_for_value(eq)
+    out = {"x": [float(x) for x in an.x], "y": [float(y) for y in an.y],
+           "inv": np.array(an.inverse_covariance_matrix, dtype=float),
+           "cm": np.array(ci.covariance_matrix(), dtype=float),
+           "single": [i for i, s_ in enumerate(samples) if s_.model is ci._single_model]}
+    old = cv.DynestyStatic
+    cv.DynestyStatic = _FakeSearch
+    _FakeSearch.rels = [(float(m), float(c)) for m, c in case["rels"]]
+    _FakeSearch.seen = []
+    try:
+        r = ci[eq]
+        out["result"] = tree_of(r)
+        out["fit_calls"] = len(_FakeSearch.seen)
+        if _FakeSearch.seen:
+            m_, a_ = _FakeSearch.seen[0]
+            out["fit_model_size"] = len(m_)
+            out["fit_y"] = [float(y) for y in a_.y]
+    except Exception as e:  # noqa
+        out["result_err"] = f"{type(e).__name__}: {str(e)[:200]}"
+    finally:
+        cv.DynestyStatic = old
+    return out, samples
+
+
+def cov_inputs(samples, tp):
+    """what the model is given of every SamplesPDF (read through the public API)"""
+    rows = []
+    for s_ in samples:
+        inst = s_.max_log_likelihood()
+        t = functools.reduce(getattr, tp, inst)
+        rows.append({"t": float(t),
+                     "params": [float(x) for x in s_.max_log_likelihood(as_instance=False)],
+                     "cov": np.atleast_2d(np.array(s_.covariance_matrix, dtype=float)).tolist(),
+                     "logl": float(s_.max_log_likelihood_sample.log_likelihood)})
+    return rows
+
+
+def cov_ask(ctx, case, rows, flags, held):
+    k = len(COV_SHAPES[case["shape"]])
+    req = {"p": "C20", "q": "cov", "k": k, "v": f2h(case["v"]), "held": f2h(held),
+           "samples": [{"t": f2h(r["t"]), "params": [f2h(x) for x in r["params"]],
+                        "cov": [[f2h(x) for x in row] for row in r["cov"]], "logl": f2h(r["logl"])} for r in rows],
+           "rels": [[f2h(m), f2h(c)] for m, c in case["rels"]],
+           "blocks_sorted": bool(flags["blocks_sorted"]), "sets_variable": bool(flags["sets_variable"])}
+    return ctx.lean.ask(req)
+
+
+def _fr(x):
+    return Fraction(int(x["n"]), int(x["d"]))
+
+
+def cov_probe_flags(ctx):
+    """which of the two repairs the tree under test has (DESIGN: flag probing on the real code)"""
+    case = {"shape": "flat2", "tp": ["t"], "v": 0.5, "rels": [[1.0, 0.0], [2.0, 0.0]],
+            "samples": [{"t": 2.0, "logl": [-1.0, -2.0, -3.0], "rows": [[1.0, 2.0], [2.0, 5.0], [4.0, 3.0]]},
+                        {"t": 1.0, "logl": [-1.5, -2.0, -3.0], "rows": [[10.0, 2.0], [-20.0, 7.0], [40.0, 3.5]]}]}
+    real, samples = cov_real(case)
+    rows = cov_inputs(samples, case["tp"])
+    import scipy.linalg
+
+    def inv_of(order):
+        k = 2
+        m = np.zeros((4, 4))
+        for i, j in enumerate(order):
+            m[i * k:(i + 1) * k, i * k:(i + 1) * k] = np.array(rows[j]["cov"])
+        return scipy.linalg.inv(m + 1e-6 * np.eye(4))
+
+    sorted_ok = np.allclose(real["inv"], inv_of([1, 0]), rtol=1e-9, atol=0)
+    supplied_ok = np.allclose(real["inv"], inv_of([0, 1]), rtol=1e-9, atol=0)
+    lt = at(real.get("result", {"k": "opaque"}), ("t",))
+    flags = {"blocks_sorted": bool(sorted_ok and not supplied_ok),
+             "sets_variable": bool(lt is not None and lt["k"] == "num" and lt["v"] == 0.5)}
+    ctx.notes["cov_flags_observed"] = dict(flags)
+    return flags
+
+
+def gen_cov_case(rng):
+    shape = rng.choice(["gaussian", "gaussian", "flat2", "flat1", "nested"])
+    k = len(COV_SHAPES[shape])
+    n = rng.choice([2, 3, 3, 4, 5])
+    mode = rng.random()
+    ts = rng.sample([i / 4 for i in range(-12, 24)], n)
+    if mode < 0.2:
+        ts.sort()
+    elif mode < 0.3 and n >= 3:
+        ts[rng.randrange(1, n)] = ts[0]  # duplicate abscissa: the stable sort keeps the order of supply
+    samples = []
+    for t in ts:
+        m = rng.choice([3, 4, 6])
+        spread = rng.choice([0.1, 1.0, 5.0])
+        rows = [[round(t * (j + 1) + rng.uniform(-spread, spread), 4) for j in range(k)] for _ in range(m)]
+        logl = [round(rng.uniform(-50, 0), 3) for _ in range(m)]
+        if rng.random() < 0.25:
+            logl = [rng.choice([-1.0, -2.0]) for _ in range(m)]  # ties within and between samples
+        samples.append({"t": t, "rows": rows, "logl": logl})
+    rels = [[round(rng.uniform(-3, 3), 3), round(rng.uniform(-10, 10), 3)] for _ in range(k)]
+    lo, hi = min(ts), max(ts)
+    v = rng.choice([float(rng.choice(ts)), rng.uniform(lo, hi), hi + rng.uniform(0.1, 2), lo - rng.uniform(0.1, 2)])
+    tp = ["t"]
+    if rng.random() < 0.2:
+        tp = list(COV_SHAPES[shape][0])  # the variable is one of the fitted parameters
+    return {"kind": "covariance", "shape": shape, "samples": samples, "rels": rels, "tp": tp, "v": float(v)}
+
+
+def one_cov_case(ctx, case, flags, label="gen"):
+    import scipy.linalg
+
+    case = dict(case, label=label)
+    paths = COV_SHAPES[case["shape"]]
+    k, n = len(paths), len(case["samples"])
+    tp, v = list(case["tp"]), float(case["v"])
+    real, samples = cov_real(case)
+    rows = cov_inputs(samples, tp)
+    ts = [r["t"] for r in rows]
+    distinct_ts = len(set(ts)) == n
+    single_inst = tree_of(samples[real["single"][0]].max_log_likelihood()) if real["single"] else None
+    held_l = at(single_inst, tuple(tp)) if single_inst else None
+    held = held_l["v"] if held_l is not None and held_l["k"] == "num" else 0.0
+    ans = cov_ask(ctx, case, rows, flags, held)
+    ctx.case({"kind": "covariance", "case": json.dumps(case, sort_keys=True)},
+             nontrivial=(n >= 3 and ts != sorted(ts)),
+             sample={"kind": "covariance", "n": n, "k": k, "tp": tp, "v": v, "abscissae": ts,
+                     "x": real["x"], "y": real["y"][:8]})
+    ctx.hit("kind:covariance")
+    ctx.hit("cov:n=%d" % n)
+    ctx.hit("cov:shape=" + case["shape"])
+    ctx.hit("cov:order=" + ("sorted" if ts == sorted(ts) else "unsorted"))
+    if not distinct_ts:
+        ctx.hit("cov:duplicate-abscissa")
+    if "driver_error" in ans:
+        ctx.disagree("C20.driver", case, None, ans)
+        return
+
+    # ---- correspondence: moved data bit-exactly
+    mx, my = [float(_fr(x)) for x in ans["x"]], [float(_fr(y)) for y in ans["y"]]
+    if real["x"] != mx or real["y"] != my:
+        ctx.disagree("C20.cov-xy", case, {"x": real["x"], "y": real["y"]}, {"x": mx, "y": my})
+    mcov = np.array([[float(_fr(e)) for e in row] for row in ans["cov"]], dtype=float).reshape(n * k, n * k)
+    try:
+        want_inv = scipy.linalg.inv(mcov + 1e-6 * np.eye(n * k))
+        inv_ok = real["inv"].shape == want_inv.shape and np.allclose(real["inv"], want_inv, rtol=1e-7, atol=0)
+    except Exception:
+        inv_ok = True
+        ctx.hit("cov:singular")
+    if not inv_ok:
+        ctx.disagree("C20.cov-matrix", case, "inverse_covariance_matrix of the analysis",
+                     {"model_blocks_sorted": flags["blocks_sorted"]})
+    if flags["blocks_sorted"]:
+        a2 = cov_ask(ctx, case, rows, dict(flags, blocks_sorted=False), held)
+        supplied = np.array([[float(_fr(e)) for e in row] for row in a2["cov"]], dtype=float).reshape(n * k, n * k)
+    else:
+        supplied = mcov
+    if real["cm"].shape != supplied.shape or not (real["cm"] == supplied).all():
+        ctx.disagree("C20.cov-blocks", case, real["cm"].tolist(), supplied.tolist())
+    msingle = ans["single"]
+    if real["single"][:1] != [msingle]:
+        ctx.disagree("C20.cov-single-model", case, real["single"], msingle)
+    if "result" not in real:
+        ctx.disagree("C20.cov-get-raises", case, real.get("result_err"), "ok")
+        return
+    res = real["result"]
+    scale = max([abs(x) for r in rows for x in r["params"]] + [abs(v), 1.0])
+    mvals = [_fr(x) for x in ans["values"]]
+    for pth, mv in zip(paths, mvals):
+        if flags["sets_variable"] and list(pth) == tp:
+            continue
+        l = at(res, tuple(pth))
+        if l is None or l["k"] != "num" or not close_enough(l["v"], float(mv), scale):
+            ctx.disagree("C20.cov-value", case, {"path": list(pth), "impl": l}, {"model": float(mv)})
+            break
+    lt = at(res, tuple(tp))
+    mvar = _fr(ans["variable"])
+    var_is_param = tuple(tp) in [tuple(p) for p in paths]
+    if not (var_is_param and not flags["sets_variable"]):
+        if lt is None or lt["k"] != "num" or Fraction(lt["v"]) != mvar:
+            ctx.disagree("C20.cov-variable", case, lt, float(mvar))
+    if real.get("fit_calls") != 1 or real.get("fit_model_size") != k or real.get("fit_y") != real["y"]:
+        ctx.disagree("C20.cov-fit-call", case, {kk: real.get(kk) for kk in ("fit_calls", "fit_model_size")},
+                     {"fit_calls": 1, "fit_model_size": k})
+
+    # ---- oracle (own computation on the real outputs)
+    order = sorted(range(n), key=lambda i: ts[i])
+    if distinct_ts:
+        want_y = [x for i in order for x in rows[i]["params"]]
+        if real["x"] != [ts[i] for i in order] or real["y"] != want_y:
+            ctx.fail("C20-covariance-gather", "x is not the sorted abscissae / y not the parameter vectors in that order",
+                     case, {"x": real["x"], "y": real["y"]})
+    # every fitted parameter of the answer is its relationship evaluated at the requested value
+    for j, pth in enumerate(paths):
+        if list(pth) == tp:
+            continue
+        l = at(res, tuple(pth))
+        m_, c_ = case["rels"][j]
+        if l is None or l["k"] != "num" or not close_enough(l["v"], m_ * v + c_, scale):
+            ctx.fail("C20-covariance-interpolant", f"parameter at {'.'.join(pth)} is not its relationship at the requested value",
+                     case, {"path": list(pth), "got": l, "want": m_ * v + c_})
+            break
+    # the interpolation variable itself equals the requested value
+    if lt is None or lt["k"] != "num" or lt["v"] != v:
+        ctx.fail("C20-covariance-variable-not-set",
+                 "CovarianceInterpolator: the interpolation variable of the result is not the requested value", case,
+                 {"got": lt, "want": v})
+    # what is fitted does not depend on the order in which the samples were supplied
+    perm = list(range(n))
+    ctx.rng.shuffle(perm)
+    if perm == list(range(n)):
+        perm.reverse()
+    other, _ = cov_real(dict(case, samples=[case["samples"][i] for i in perm]))
+    same_xy = other["x"] == real["x"] and other["y"] == real["y"]
+    same_inv = other["inv"].shape == real["inv"].shape and np.allclose(other["inv"], real["inv"], rtol=1e-7, atol=1e-12)
+    if not (same_xy and same_inv):
+        cls = "C20-duplicate-abscissa" if not distinct_ts else (
+            "C20-covariance-blocks-unsorted" if same_xy else "C20-covariance-order-dependent")
+        ctx.fail(cls, "CovarianceInterpolator: the analysis that is fitted (x, y, inverse covariance) depends on the "
+                      "order in which the samples were supplied", case, {"perm": perm, "same_xy": same_xy, "same_inv": same_inv})
+    elif distinct_ts and "result" in other and (
+            [(p_, l_["v"]) for p_, _, l_ in leaves(other["result"]) if l_["k"] == "num"]
+            != [(p_, l_["v"]) for p_, _, l_ in leaves(res) if l_["k"] == "num"]):
+        ls = [s_["logl"] for s_ in case["samples"]]
+        best = max(max(l_) for l_ in ls)
+        if sum(1 for l_ in ls if max(l_) == best) < 2:  # ties in the best likelihood: either model may be the template
+            ctx.fail("C20-covariance-order-dependent", "CovarianceInterpolator: the answer depends on the order of the samples",
+                     case, {"perm": perm, "this": real.get("result"), "other": other.get("result")})
+
+
+# ---------------------------------------------------------------------------------------------
 # generator
 
 NAMES = ["a", "b", "c", "centre", "sigma", "normalization", "k", "w", "t", "x"]
@@ -807,9 +1102,19 @@ def run(ctx):
     ]
     for f in sorted((VERIF / "corpus" / "C20").glob("*.json")):
         c = json.loads(f.read_text())
+        if c.get("kind") == "covariance":
+            continue  # run below by one_cov_case
         one_case(ctx, c, label=f.name)
     # the stored witness of every known finding is expected to reproduce (reported, not an alarm: a
     # finding that stops reproducing has been repaired upstream and its entry should become "fixed")
+    ctx.notes["known_witness_not_reproduced"] = sorted(
+        k["id"] for k in ctx.known if k.get("status") == "known" and k["id"] not in ctx.known_hits)
+    # CovarianceInterpolator plumbing (request kind "cov")
+    cov_flags = cov_probe_flags(ctx)
+    for f in sorted((VERIF / "corpus" / "C20").glob("cov_*.json")):
+        one_cov_case(ctx, json.loads(f.read_text()), cov_flags, label=f.name)
+    for _ in range(ctx.n(40, 300)):
+        one_cov_case(ctx, gen_cov_case(ctx.rng), cov_flags)
     ctx.notes["known_witness_not_reproduced"] = sorted(
         k["id"] for k in ctx.known if k.get("status") == "known" and k["id"] not in ctx.known_hits)
     n = ctx.n(1200, 15000)
@@ -839,5 +1144,8 @@ def run(ctx):
 
 def replay(ctx, payload):
     case = payload.get("case") or payload.get("disagreements", [{}])[0].get("case")
-    one_case(ctx, case, label="replay")
+    if case.get("kind") == "covariance":
+        one_cov_case(ctx, case, cov_probe_flags(ctx), label="replay")
+    else:
+        one_case(ctx, case, label="replay")
     print(json.dumps({"failures": ctx.failures[:3], "disagreements": ctx.disagreements[:3]}, default=str)[:3000])
